@@ -66,6 +66,24 @@ def bn_followers(spec):
     return out
 
 
+def cat_of_fixed(spec, handled):
+    """a features-concat with >= 2 operands whose features are defined by something PIT does not search
+    (network input, conv/linear left as it is)"""
+    nodes = spec['nodes']
+    for nd in nodes:
+        if nd['k'] == 'cat' and nd['dim'] == 1:
+            fixed = 0
+            for s_ in nd['src']:
+                j = ga.feeds_through_propagating(spec, s_)
+                while nodes[j]['k'] in ('conv1d', 'conv2d') and nodes[j]['groups'] > 1 and j in handled:
+                    j = ga.feeds_through_propagating(spec, nodes[j]['src'])
+                if nodes[j]['k'] == 'in' or (nodes[j]['k'] in CONVS and j not in handled):
+                    fixed += 1
+            if fixed >= 2:
+                return True
+    return False
+
+
 def n_users(spec, i):
     c = 0
     for nd in spec['nodes']:
@@ -312,6 +330,13 @@ def run_case(torch, seed, cfg):
             if c2:
                 excl = (ga.name(rng.choice(c2)),)
         o['excl'] = list(excl)
+        if method == 'pit':
+            handled_idx = set(i for i in convs if ga.name(i) not in excl) if cfg['auto'] else set(placed)
+            if cat_of_fixed(spec, handled_idx):
+                # a features-concat of two or more producers that PIT does not search: their constant features
+                # calculators collide on the consumer (DESIGN.md §9 row 6) — that book-keeping is decided by C09
+                o['skip'] = 'cat-of-fixed-producers'
+                return o
 
         # ---- the reference: the model itself, in eval mode, before conversion
         m.eval()
@@ -466,8 +491,13 @@ def expected_export_arch_named(torch, model, xs, fold, handled):
 def oracle(o):
     """-> list of (key, detail) : failures of the property on this case"""
     f = list(o['fails'])
-    if o['skip'] or f:
-        return f
+    if o['skip']:
+        return []
+    if f:
+        cfg = o['cfg']
+        tag = cfg['method'] + ('' if cfg['method'] != 'pit' else (':auto' if cfg['auto'] else ':import') + (':userpit' if o.get('placed') else '') + (':fold' if cfg['fold'] else ':nofold'))
+        where = 'export' if 'in export' in o.get('trace', '') else 'conversion'
+        return [('%s:%s:%s:%s' % (k, where, tag, str(info).split(':')[0]), info) for k, info in f]
     cfg, ob = o['cfg'], o['obs']
     method = cfg['method']
     tol = 0.0 if cfg.get('integer') else TOL
